@@ -31,6 +31,7 @@ class LoopSpec:
         self.body_hints = []
         self.entry_hints = []
         self.modifies = []
+        self.inherits = []       # (loop key, [excluded invariant names])
 
 
 class Contract:
@@ -139,6 +140,8 @@ def _parse_clauses(body, c, sc, loop=None):
                 loop.decreases = a[0]
             else:
                 c.decreases = a[0]
+        elif fn == 'inherit':
+            loop.inherits.append((str(_s(a[0])), [_s(x) for x in a[1:]]))
         elif fn == 'exit_hint':
             loop.exit_hints.extend(a)
         elif fn == 'body_hint':
@@ -235,6 +238,14 @@ def load_file(path, sc):
                 c.params = [(a.arg, _s(a.annotation) if a.annotation else None) for a in st.args.args]
                 c.ret = _s(st.returns) if st.returns else None
                 _parse_clauses(st.body, c, sc)
+                for ls in c.loops.values():
+                    inh = []
+                    for key, excl in ls.inherits:
+                        if key not in c.loops:
+                            raise ValueError('%s: inherit from unknown loop %s' % (qual, key))
+                        inh.extend((n, e) for n, e in c.loops[key].invariants if n not in excl)
+                    have = {n for n, _ in ls.invariants}
+                    ls.invariants = [(n, e) for n, e in inh if n not in have] + ls.invariants
                 if qual in sc.contracts:
                     raise ValueError('duplicate contract for ' + qual)
                 sc.contracts[qual] = c
